@@ -5,6 +5,7 @@ import FeatModel.Lemmas.C02Convert
 import FeatModel.Lemmas.C02Clone
 import FeatModel.Lemmas.C02Cscr
 import FeatModel.Lemmas.C02Banded
+import FeatModel.Lemmas.C02ChainSpec
 /-!
 # C02 — conversion, cloning, transposition and permutation preserve the matrix (property theorems)
 
@@ -49,12 +50,6 @@ theorem C02.dense_transpose_spec {α : Type} [Zero α] (A : Dense α) (h : A.wf 
     A.transpose.rows = A.cols ∧ A.transpose.cols = A.rows ∧ A.transpose.wf = true ∧
     ∀ i j, i < A.rows → j < A.cols → A.transpose.entry j i = A.entry i j :=
   C02L.Conv.dense_transpose_spec A h
-
-/-- the BCSR transpose of an entry-free matrix keeps `rows x columns` (only the block shape is swapped): the
-    model follows the code as written, this is the recorded defect of FINDINGS_C02.md (the CSR twin was F5) -/
-theorem C02.bcsr_transpose_entry_free_as_written {α : Type} [Zero α] (A : Bcsr α) (h : A.usedElements = 0) :
-    A.transpose.rows = A.rows ∧ A.transpose.cols = A.cols ∧ A.transpose.bh = A.bw ∧ A.transpose.bw = A.bh := by
-  simp [Bcsr.transpose, h]
 
 /-! ### permutation -/
 
@@ -112,8 +107,8 @@ theorem C02.csr_toBanded_spec_rat (A : Csr Rat) (h : A.valid = true) (hnz : 0 < 
       ∀ i j, i < A.rows → j < A.cols → B.entry i j = A.entry i j :=
   C02L.Conv.csr_toBanded_spec_rat A h hnz
 
-/-- `SparseMatrixCSCR::convert(const MT_ &)` from CSR, on the input class where the real converter is right (no
-    empty row before a non-empty one — see FINDINGS_C02.md D2; the model is the list-level result on that class) -/
+/-- `SparseMatrixCSCR::convert(const MT_ &)` from CSR for every well-formed matrix — empty rows anywhere (finding D2,
+    repaired in /repo: the fill loop addresses the compressed row pointer by the compressed index) -/
 theorem C02.csr_toCscr_spec {α : Type} [Zero α] [Add α] (A : Csr α) (h : A.wf = true) :
     A.toCscr.rows = A.rows ∧ A.toCscr.cols = A.cols ∧ A.toCscr.wf = true ∧
     ∀ i j, i < A.rows → j < A.cols → A.toCscr.entry i j = A.entry i j :=
@@ -126,17 +121,18 @@ theorem C02.cscr_toCsr_spec {α : Type} [Zero α] [Add α] (A : Cscr α) (h : A.
     ∀ i j, i < A.rows → j < A.cols → B.entry i j = A.entry i j :=
   C02L.cscr_toCsr_spec A h B hB
 
-/-- `SparseMatrixBCSR::transpose` of a matrix with at least one block (block columns strictly increasing in every
-    block row): swapped block shape and dimensions, well-formed layout, scalar entries `(i,j) -> (j,i)` -/
-theorem C02.bcsr_transpose_spec {α : Type} [Zero α] [Add α] (A : Bcsr α) (h : A.wf = true)
-    (hs : ((List.range A.rows).all fun i =>
-      (List.range' (A.rowPtr.getD i 0) (A.rowPtr.getD (i + 1) 0 - A.rowPtr.getD i 0 - 1)).all fun k =>
-        A.colInd.getD k 0 < A.colInd.getD (k + 1) 0) = true)
-    (hbh : 0 < A.bh) (hbw : 0 < A.bw) (hnz : 0 < A.usedElements) :
+/-- `SparseMatrixBCSR::transpose` for every valid block matrix, including the entry-free one (finding D4, repaired in
+    /repo): swapped block shape and dimensions, valid layout, scalar entries `(i,j) -> (j,i)` -/
+theorem C02.bcsr_transpose_spec {α : Type} [Zero α] [Add α] (A : Bcsr α) (h : A.valid = true) (hbh : 0 < A.bh)
+    (hbw : 0 < A.bw) :
     A.transpose.bh = A.bw ∧ A.transpose.bw = A.bh ∧ A.transpose.rows = A.cols ∧ A.transpose.cols = A.rows ∧
-    A.transpose.wf = true ∧
+    A.transpose.valid = true ∧
     ∀ i j, i < A.rows * A.bh → j < A.cols * A.bw → A.transpose.entry j i = A.entry i j :=
-  C02L.bcsr_transpose_spec A h hs hbh hbw hnz
+  C02L.bcsr_transpose_spec A h hbh hbw
+
+/-- the entry-free 1x2-block matrix of finding D4: its transpose has 2x1 blocks -/
+example : ((⟨2, 3, 1, 2, #[], #[], #[]⟩ : Bcsr Nat).transpose.rows, (⟨2, 3, 1, 2, #[], #[], #[]⟩ : Bcsr Nat).transpose.cols)
+    = (2, 1) := by decide
 
 /-! ### cloning (heap model: containers hold array ids; `okIn` = the ids are allocated) -/
 
@@ -182,12 +178,28 @@ theorem C02.clone_observation_table {α : Type} [DecidableEq α] (h : Heap α) (
       | .deep => (false, false, false, false) :=
   C02L.cloneObservation_table h c hok m mark dflt hmark hmd
 
+/-! ### chains -/
+
+/-- Any finite chain of the modelled operations (`Mat.run` folds `Mat.step`, the function `drv_c02` executes for every
+    operation token: format conversions between CSR / banded / CSCR / BCSR, clones, layout / graph rebuilds, transposes
+    in and out of place, permutations, type round trips) on a container of any of the five formats: if the chain runs
+    through (no abort), the result has a valid layout, the dimensions of the textbook chain (`semRun`: transposes
+    swap, permutations relabel, everything else is the identity) and represents the textbook matrix.  `chainOk` only
+    demands that every permutation is a bijection of the current index sets. -/
+theorem C02.chain_spec {α : Type} [Zero α] [Add α] (h0 : (0 : α) + 0 = 0) (ops : List Op) (m m' : Mat α)
+    (hv : m.valid = true) (hok : chainOk ops (⟨m.rows, m.cols, m.entry⟩ : Sem α) = true)
+    (hrun : m.run ops = some m') :
+    m'.valid = true ∧
+    m'.rows = (semRun ops ⟨m.rows, m.cols, m.entry⟩).rows ∧ m'.cols = (semRun ops ⟨m.rows, m.cols, m.entry⟩).cols ∧
+    ∀ i j, i < m'.rows → j < m'.cols → m'.entry i j = (semRun ops ⟨m.rows, m.cols, m.entry⟩).f i j :=
+  C02L.chain_spec h0 ops m m' hv hok hrun
+
 /-!
 ### Covered by the correspondence run only (no theorem here)
-* chains of the operations above (the run executes chains of up to 12 operations on the real containers; each link
-  is one of the theorems above, whose conclusions — valid layout, same dimensions — re-establish the next
-  theorem's hypotheses);
+* that a chain does not abort (`C02.chain_spec` assumes `run = some _`; the aborts that remain are the open known
+  findings D6 / D7 and a permutation of the wrong size);
 * data-type and index-type conversion (`assign` with `DT2_ ≠ DT_` / `IT2_ ≠ IT_`) and the layout/graph rebuilds: the model
   is the identity on the arrays;
-* the entry-free / empty-row inputs on which the real code fails (FINDINGS_C02.md) are outside the generated class.
+* the inputs of the open known findings c02-edge:D1/D3/D5 (real code crashes; the model shows the intended result)
+  and D6/D7 (real code and model abort) are executed and judged on every run.
 -/
